@@ -79,9 +79,11 @@ func clean(gf *lfs.GitFilter, to io.Writer, from io.Reader, fileName string, fil
 		}
 		tracerx.Printf("%s exists", mediafile)
 	} else {
+		tools.VerifFs("rename", tmpfile, mediafile)
 		if err := os.Rename(tmpfile, mediafile); err != nil {
 			Panic(err, tr.Tr.Get("Unable to move %s to %s", tmpfile, mediafile))
 		}
+		tools.VerifFs("renamed", tmpfile, mediafile)
 
 		tracerx.Printf("Writing %s", mediafile)
 	}
